@@ -2680,6 +2680,22 @@ class QuaternionArray(np.ndarray):
         Q[:, 3] = sy*cp*cr - cy*sp*sr
         return Q/np.linalg.norm(Q, axis=1)[:, None]
 
+    def from_angles(self, Angles: np.ndarray) -> np.ndarray:
+        """
+        Synonym to method from_rpy(), as in class Quaternion.
+
+        Parameters
+        ----------
+        Angles : numpy.ndarray
+            N-by-3 array with roll, pitch and yaw angles, in radians.
+
+        Returns
+        -------
+        Q : numpy.ndarray
+            N-by-4 array with the corresponding unit quaternions.
+        """
+        return QuaternionArray.from_rpy(self, Angles)
+
     def from_DCM(self, DCM: np.ndarray, method: str='shepperd', inplace: bool = True, **kw) -> np.ndarray:
         """
         Quaternion from Direction Cosine Matrix.
